@@ -1,4 +1,4 @@
-import Dashu.Proofs.Text.Float
+import Dashu.Proofs.Text.FloatParse
 /-
   C08 — Float text I/O is lossless; base/precision changes are faithfully rounded.   **partial**
 
@@ -8,18 +8,20 @@ import Dashu.Proofs.Text.Float
     `repr_round` of the *exact* value, hence meet the rounding contract of C03 — exact iff
     representable (truthful flag), otherwise less than one ulp on the mode's side;
   * the precision `with_base` documents (`max q, NewB^q ≤ B^p`) as computed by the specification side;
-  * `TryFrom<f32/f64>` is exact, with precision = bit length of the mantissa.
+  * `TryFrom<f32/f64>` is exact, with precision = bit length of the mantissa;
+  * the literal parser on the plain form of the documented grammar (`[sign] int [. frac] [@ scale]`,
+    every base 2..36, either letter case): exactly the written value, precision = number of written
+    digits; and the print → parse round trip of `Display` (no precision option): equal value.
 
   Not proved (checked by the correspondence run only; see `vlib/props/c08.py` FRONTIER):
-  `from_str_native` = the literal grammar (`parseFloatSpec`), `fmt_round` = `displaySpec`, the
-  print → parse round trip, the small-negative-exponent branch (division: builder-float's `reprDiv`
+  `from_str_native` = the literal grammar (`parseFloatSpec`) on *all* byte strings (underscores,
+  the base-specific markers `e b o h p`, the hexadecimal form and the error cases are compared at run
+  time only), `fmt_round` with a precision = `displaySpec`, the small-negative-exponent branch (division: builder-float's `reprDiv`
   model, C03) and the large-exponent branch through `ln`/`exp` (judged per case by exact
   arithmetic; it does *not* meet the contract — two recorded findings).
 
   -- theorem parse_eq_grammar_full (W B s) : fromStrNative W B s = parseFloatSpec B s
   -- theorem display_eq_spec_full   (B m plus prec r) : fmtRound B m {plus} prec r = displaySpec B m plus prec r
-  -- theorem print_parse_round_trip_full (W B m r) (hr : Normalized B r) :
-  --     (fromStrNative W B (fmtRound B m {} none r)).map (·.1) = .ok r
 -/
 namespace Dashu.Props.C08
 open Dashu.Model.Text Dashu.Model.Float
@@ -106,8 +108,31 @@ theorem from_ieee_exact (mb eb bits : Nat) (r : FRepr) (p : Nat) (h : fromIeee m
     r.toRat 2 = (if neg then -(man : ℚ) else (man : ℚ)) * bpowQ 2 exp ∧ p = bitLen man :=
   fromIeee_exact mb eb bits r p h
 
+/-- **parsing yields exactly the written value, precision = number of written digits**: a literal
+    `[sign] int [. frac] [@ scale]` of base `B` (digit lists `di`, `df` not both empty, either letter
+    case, any `isize` scale) parses to a float whose value is, exactly,
+    `±(int·B^|frac| + frac)·B^(scale − |frac|)`, with precision `|int| + |frac|` -/
+theorem parse_literal_exact (W : Nat) (hW : 36 < 2 ^ W) (B : Nat) (hB : validRadix B = true) (up : Bool)
+    (sign : Option Bool) (di : List Nat) (frac : Option (List Nat)) (scale : Option Int)
+    (hdi : ∀ d ∈ di, d < B) (hdf : ∀ d ∈ frac.getD [], d < B) (hne : di ≠ [] ∨ frac.getD [] ≠ [])
+    (hs : ∀ z, scale = some z → -(2 ^ 63 : Int) ≤ z ∧ z < (2 ^ 63 : Int)) :
+    ∃ r : FRepr, fromStrNative W B (renderLiteral up sign di frac scale) =
+        .ok (r, di.length + (frac.getD []).length) ∧
+      r.toRat B = (if sign = some true then -1 else 1) * (ofDigits B (di ++ frac.getD []) : ℚ) *
+        bpowQ B (scale.getD 0 - ((frac.getD []).length : Int)) :=
+  literal_exact W hW B hB up sign di frac scale hdi hdf hne hs
+
+/-- **print → parse round trip**: what `Display` prints for a finite float (no precision option)
+    parses back to a float of exactly the same value — every base, mode, significand, exponent -/
+theorem print_parse_round_trip (W : Nat) (hW : 36 < 2 ^ W) (B : Nat) (hB : validRadix B = true)
+    (m : Mode) (r : FRepr) :
+    ∃ (r' : FRepr) (n : Nat), fromStrNative W B (fmtRound B m {} none r) = .ok (r', n) ∧
+      r'.toRat B = r.toRat B :=
+  display_parse_round_trip W hW B hB m r
+
 -- non-vacuity
 example : ilogExact 16 2 = 4 ∧ ilogExact 8 2 = 3 ∧ ilogExact 10 2 = 0 ∧ ilogExact 36 6 = 2 := by decide
 example : (2 : Nat) ≤ 10 ∧ (1 : Nat) ≤ 53 := by decide
+example : validRadix 10 = true ∧ validRadix 2 = true ∧ validRadix 36 = true ∧ (36 : Nat) < 2 ^ 64 := by decide
 
 end Dashu.Props.C08
